@@ -13,7 +13,8 @@ RULE = ("runs of the real CLCKGen worker loop under a virtual monotonic clock (t
         "runs synchronously): start frame (boundary-biased incl. 2715647), indication period 1..300 (incl. 51, 102), 0..3 "
         "links (each link object has its own identity; the list is changed in place - add / insert / remove / replace / swap - before start() and "
         "inside the handler of generated ticks, as transceivers do on power on / off: the indication of tick k goes to exactly the links attached "
-        "when tick k fires), 1..400 ticks, a handler-duration pattern per tick (zero, below one frame, about one frame, several frames; "
+        "when tick k fires; plus blocked_handler_restart: real threads, a handler blocked for 1.6 s (thorough: 0.3 / 3.2 s too) around "
+        "stop()/start(), afterwards one worker and consecutive frames), 1..400 ticks, a handler-duration pattern per tick (zero, below one frame, about one frame, several frames; "
         ">=30% of runs without any overrun), 1..3 start/stop cycles. Oracle (ClockModel): frame numbers (start+k) mod "
         "2715648; 'IND CLOCK <fn>\\0' to every link exactly at fn % period == 0 and before the handler of that tick; tick "
         "times follow the absolute-deadline rule (deadline += P; fire at the deadline, or immediately with deadline := now "
